@@ -186,6 +186,23 @@ fn run_case<const N: usize>(slot: usize, bs: usize, ops: &[&str]) -> String {
                     Ok(Ok(())) => "ok".to_string(),
                 }
             }
+            "ovalid" => {
+                // the same routine in the deprecated crate
+                let i: usize = t[1].parse().unwrap();
+                let mut os = original_flash_algo::manager::ScratchRam::new();
+                match guard(|| block_on(original_flash_algo::manager::check_crc_from_index(&mut f, &mut os, None, None, i * slot))) {
+                    Err(_) => "panic".to_string(),
+                    Ok(Ok(())) => "ok".to_string(),
+                    Ok(Err(e)) => format!("err:{}", match e {
+                        original_flash_algo::manager::ManagerError::Spi(_) => "Spi",
+                        original_flash_algo::manager::ManagerError::UnexpectedMissingHeader => "UnexpectedMissingHeader",
+                        original_flash_algo::manager::ManagerError::Crc32Mismatch => "Crc32Mismatch",
+                        original_flash_algo::manager::ManagerError::TooManySegments => "TooManySegments",
+                        original_flash_algo::manager::ManagerError::SegmentsTooLarge => "SegmentsTooLarge",
+                        _ => "Other",
+                    }),
+                }
+            }
             "mark" | "markbl" if t[0] == "mark" || last_bl.is_some() => {
                 let i: usize = if t[0] == "mark" { t[2].parse().unwrap() } else { last_bl.unwrap() };
                 let k = t[1];
